@@ -103,8 +103,8 @@ type grMismatch struct {
 
 type grReport struct {
 	Cases      int            `json:"cases"`
-	Checked    int            `json:"checked"`  // text really lexes to the intended token kinds
-	Skipped    int            `json:"skipped"`  // rendering lexes differently (fused tokens): not a case
+	Checked    int            `json:"checked"` // text really lexes to the intended token kinds
+	Skipped    int            `json:"skipped"` // rendering lexes differently (fused tokens): not a case
 	Sentences  int            `json:"sentences"`
 	Accepted   int            `json:"accepted"` // parsed to a typed query (and evaluated)
 	NonTrivial int            `json:"distinct_nontrivial"`
@@ -156,6 +156,10 @@ func grammarMain(args []string) error {
 				if variant == 2 && k == "UNK" {
 					// characters the lexer does not know but a general-purpose "trim" or "is space" would: white space outside [ \n\t\r]
 					lx = unkAlts[(i+idx)%len(unkAlts)]
+				}
+				if variant == 2 && k == "STRING" {
+					// literals that end in an escape sequence, or consist of escapes only
+					lx = []string{`"a\""`, `"\\"`, `"\"\""`, `""`}[(i+idx)%4]
 				}
 				if variant == 2 && seen[k]%2 == 0 {
 					switch k {
